@@ -251,3 +251,10 @@ _rep("C10", "debugger stops inside the ROM routine)", "debugger stops inside the
 _rep("C16", "(ROM boot with a tape and a key script;", "(ROM boot with a tape and a key script; a probe program reading AY, Kempston and keyboard ports; a jump to the fast-load trap that coincides with a frame end;")
 _rep("C18", "a repeated R13 write restarts the envelope.", "a repeated R13 write restarts the envelope, also when registers are selected with upper bits set.")
 _rep("C19", "SZX loads restoring speaker/MIC;", "SZX loads restoring speaker/MIC, idle loops of short and of 23-T instructions;")
+
+_rep("C08", "delivered by 21 paths", "delivered by 22 paths")
+_rep("C09", "OUTs across the frame end,", "OUTs across the frame end, frames that are the first of a two-frame call,")
+_rep("C10", "zero-length blocks)", "zero-length blocks, tape assets that hand out a few bytes per read)")
+_rep("C12", "with the fast loader taking blocks", "with stops placed inside the sync pulses and the fast loader taking blocks")
+_rep("C14", "(besides the Q latch being clear unless the SZX says FSET)", "(besides the Q latch being clear unless the SZX says FSET, and the painted border being the file's)")
+_rep("C15", "then emulates 20 frames.", "then emulates 20 frames plus three of a program that polls the AY, keyboard, joystick and mouse ports.")
